@@ -225,8 +225,10 @@ class Types:
             kt = self._cl(strip_cvref(args[0])[0])
             vt = self._cl(strip_cvref(args[1])[0])
             return T({'std::unordered_map': 'hash', 'std::map': 'map', 'std::multimap': 'mmap'}[name], None, kt=kt, vt=vt)
-        if name == 'std::lock_guard':
+        if name in ('std::lock_guard', 'std::scoped_lock'):
             return T('guard', None)
+        if name == 'std::unique_lock':
+            return T('ulock', None)
         if name == 'std::uniform_int_distribution':
             return T('dist', None)
         if name in ('std::mersenne_twister_engine', 'std::random_device', 'std::mt19937'):
@@ -592,6 +594,7 @@ class FuncEmitter:
         self.nloops = 0
         self.has_guard = False
         self.dists = {}
+        self.ulocks = {}
         self.loop_depth_scopes = []  # scope depth at loop entry (for break)
         self.terminated = False
         self.T = cx.T if cx.name not in ('',) else Types(None)
@@ -960,6 +963,28 @@ class FuncEmitter:
                 self.out('%s__lock(&%s); /* std::lock_guard %s{...} */' % (mt.c, arg, name))
                 self.scopes[-1].append('%s__unlock(&%s); /* ~lock_guard %s */' % (mt.c, arg, name))
                 return
+            if t.k == 'ulock':
+                e = self.strip_wrappers(init[0])
+                cargs = [a for a in e.get('inner', []) if a['kind'] != 'CXXDefaultArgExpr']
+                mt = self.cls(cargs[0])
+                if mt.k != 'cmutex':
+                    abort('unique_lock over something that is not cappuccino::mutex', d)
+                arg = self.expr(cargs[0])
+                deferred = False
+                if len(cargs) == 2:
+                    if 'defer_lock' not in json.dumps(cargs[1]):
+                        abort('unique_lock constructor tag without a rule', d)
+                    deferred = True
+                elif len(cargs) != 1:
+                    abort('unique_lock constructor form without a rule', d)
+                self.has_guard = True
+                owns = self.fresh('owns_' + name)
+                self.out('bool %s = %s; /* std::unique_lock %s */' % (owns, 'false' if deferred else 'true', name))
+                if not deferred:
+                    self.out('%s__lock(&%s);' % (mt.c, arg))
+                self.ulocks[d['id']] = (owns, mt.c, arg)
+                self.scopes[-1].append('if (%s) %s__unlock(&%s); /* ~unique_lock %s */' % (owns, mt.c, arg, name))
+                return
             if t.k == 'dist':
                 e = self.strip_wrappers(init[0])
                 args = [self.expr(a) for a in e['inner']]
@@ -1137,6 +1162,9 @@ class FuncEmitter:
             return '(%s %s %s)' % (self.expr(e['inner'][0]), op, self.expr(e['inner'][1]))
         abort('binary operator without a rule: ' + op, e)
 
+    def x_ConditionalOperator(self, e):
+        return '(%s ? %s : %s)' % (self.expr(e['inner'][0]), self.expr(e['inner'][1]), self.expr(e['inner'][2]))
+
     def x_CompoundAssignOperator(self, e):
         return '(%s %s %s)' % (self.expr(e['inner'][0]), e['opcode'], self.expr(e['inner'][1]))
 
@@ -1235,6 +1263,19 @@ class FuncEmitter:
             if t.k == 'u64':
                 return 'cstl_swap_u64(&(%s), &(%s))' % (self.expr(args[0]), self.expr(args[1]))
             abort('std::swap over %s' % t.src, e)
+        if name in ('max', 'min') and len(args) == 2:
+            t = self.cls(args[0])
+            if t.k in ('u64', 'iter'):
+                return 'cstl_%s_u64(%s, %s)' % (name, self.expr(args[0]), self.expr(args[1]))
+            if t.k in ('i64', 'tp', 'ms', 'int'):
+                return 'cstl_%s_i64(%s, %s)' % (name, self.expr(args[0]), self.expr(args[1]))
+            abort('std::%s over %s' % (name, t.src), e)
+        if name == 'next' and len(args) == 1:
+            t = self.cls(args[0])
+            if t.k == 'iter' and t.fam == 'list':
+                m = self.model_for_iter(t, e)
+                return '%s_next(%s, %s)' % (m.name, self.pool(m), self.expr(args[0]))
+            abort('std::next over %s' % t.src, e)
         if name == 'make_pair':
             return '((cstl_pair){%s, %s})' % (self.expr(args[0]), self.expr(args[1]))
         if name in ('begin', 'end', 'size'):
@@ -1281,6 +1322,15 @@ class FuncEmitter:
             abort('output vector operation without a rule: ' + name, e)
         if v and v['T'].k == 'range':
             return self.range_op(v, name)
+        if sb['kind'] == 'DeclRefExpr' and sb.get('referencedDecl', {}).get('id') in self.ulocks:
+            owns, mc, arg = self.ulocks[sb['referencedDecl']['id']]
+            if name == 'lock' and not args:
+                return '(%s__lock(&%s), %s = true)' % (mc, arg, owns)
+            if name == 'unlock' and not args:
+                return '(%s__unlock(&%s), %s = false)' % (mc, arg, owns)
+            if name == 'owns_lock' and not args:
+                return owns
+            abort('unique_lock operation without a rule: ' + name, e)
         if bt.k == 'cmutex':
             return '%s__%s(&%s)' % (bt.c, name, self.expr(base))
         if bt.k == 'stdmutex':
@@ -1291,6 +1341,8 @@ class FuncEmitter:
                 return '%s.has' % self.expr(base)
             if name == 'value':
                 return 'cstl_opt_value(&%s)' % self.expr(base)
+            if name == 'reset' and not args:
+                return '(%s = (cstl_opt){false, 0})' % self.expr(base)
             abort('optional operation without a rule: ' + name, e)
         if bt.k in ('list', 'hash', 'map', 'mmap', 'vector'):
             m = self.model_for_container(bt, e)
@@ -1302,6 +1354,10 @@ class FuncEmitter:
             if bt.k == 'vector':
                 if name in ('size', 'capacity') and not A:
                     return '%s_%s(&%s)' % (m.name, name, b)
+                if name == 'empty' and not A:
+                    return '(%s_size(&%s) == 0)' % (m.name, b)
+                if name == 'at' and len(A) == 1:
+                    return '(*%s_at(&%s, %s))' % (m.name, b, A[0])
                 if name == 'begin':
                     return '%s.data' % b
                 if name == 'end':
@@ -1329,6 +1385,20 @@ class FuncEmitter:
                     return '%s_erase(%s, &%s, %s)' % (m.name, P, b, A[0])
                 if name == 'erase' and len(A) == 2:
                     return '%s_erase_range(%s, &%s, %s, %s)' % (m.name, P, b, A[0], A[1])
+                if name == 'front' and not A:
+                    return '(*%s_deref(%s, %s_begin(%s, &%s)))' % (m.name, P, m.name, P, b)
+                if name == 'empty' and not A:
+                    return '(%s_size(&%s) == 0)' % (m.name, b)
+                if name in ('push_back',) and len(A) == 1:
+                    return '%s_emplace_back(%s, &%s, %s)' % (m.name, P, b, A[0])
+                if name in ('insert', 'emplace') and len(A) == 2 and self.cls(args[0]).k == 'iter' and m.el.k != 'record':
+                    return '%s_emplace(%s, &%s, %s, %s)' % (m.name, P, b, A[0], A[1])
+                if name in ('push_front', 'emplace_front') and len(A) == 1 and m.el.k != 'record':
+                    return '%s_emplace(%s, &%s, %s_begin(%s, &%s), %s)' % (m.name, P, b, m.name, P, b, A[0])
+                if name == 'pop_back' and not A:
+                    return '%s_erase(%s, &%s, %s_prev(%s, %s_end(%s, &%s)))' % (m.name, P, b, m.name, P, m.name, P, b)
+                if name == 'pop_front' and not A:
+                    return '%s_erase(%s, &%s, %s_begin(%s, &%s))' % (m.name, P, b, m.name, P, b)
                 if name == 'emplace_back':
                     if m.el.k == 'record':
                         self.check_positional_ctor(m.el, len(A), e)
@@ -1352,6 +1422,10 @@ class FuncEmitter:
                     return '%s_erase(%s, &%s, %s)' % (m.name, P, b, A[0])
                 if name == 'clear' and not A:
                     return '%s_clear(%s, &%s)' % (m.name, P, b)
+                if name == 'count' and len(A) == 1:
+                    return '((uint64_t)(%s_find(%s, &%s, %s) != %s_end(%s, &%s)))' % (m.name, P, b, A[0], m.name, P, b)
+                if name == 'empty' and not A:
+                    return '(%s_size(&%s) == 0)' % (m.name, b)
                 if bt.k == 'hash' and name in ('reserve', 'max_load_factor') and len(A) == 1:
                     return '%s_%s(%s, &%s, %s)' % (m.name, name, P, b, A[0])
                 abort('map operation without a rule: %s/%d' % (name, len(A)), e)
